@@ -8,9 +8,8 @@ quantifying over all `Choices` quantifies over every independent choice per occu
 that is not admissible for the string at hand falls back to an admissible encoding:
   atom     only if non-empty and all bytes RFC 3501 ASTRING-CHARs other than `[` (gluon rejects `[`, a
            valid ATOM-CHAR: `Gluon.C10.lbracket_atom_witness`) and not starting with `{`;
-  quoted   only if no NUL, CR, LF (RFC 3501 TEXT-CHAR; the parser would accept them);
-  literal  only if non-empty (gluon rejects `{0}`: `Gluon.C10.literal0_witness`, #17);
-  the empty string falls back to `""`, everything else to a literal.
+  quoted   only if no NUL, CR, LF (RFC 3501 TEXT-CHAR);
+  literal  always (the empty string as `{0}`), and it is the fallback.
 -/
 import GluonModel.Model.Parse.Grammar
 
@@ -72,14 +71,12 @@ def printLiteral (s : Bytes) : Bytes := 123 :: natDigits s.length ++ [125, 13, 1
 
 /-- `string = quoted / literal`; preference `e % 2`: 0 quoted, 1 literal -/
 def printString (e : Nat) (s : Bytes) : Bytes :=
-  if s.isEmpty then printQuoted s
-  else if e % 2 = 0 && quotedOK s then printQuoted s
+  if e % 2 = 0 && quotedOK s then printQuoted s
   else printLiteral s
 
 /-- `astring`; preference `e % 3`: 0 atom, 1 quoted, 2 literal -/
 def printAString (e : Nat) (s : Bytes) : Bytes :=
   if e % 3 = 0 && atomOK s then s
-  else if s.isEmpty then printQuoted s
   else if e % 3 ≠ 2 && quotedOK s then printQuoted s
   else printLiteral s
 
